@@ -103,14 +103,16 @@ PROPS = {
         not_decided="ToUnicode text, CIDToGIDMap, glyph presence, the widths returned by get_glyph_widths, anything an independent extractor would check",
     ),
     "C16": dict(
-        verus=["rotate", "pagerange"],
+        verus=["rotate", "pagerange", "inherit"],
+        standins=["pageops"],
         kani=[K("c16_from_degrees_all_i32", "operations/rotate.rs", "RotationAngle::from_degrees/to_degrees"),
               K("c16_combine", "operations/rotate.rs", "RotationAngle::combine")],
-        not_decided="that output page k is input page order[k] with the same content, resources and boxes (Page::from_parsed_with_content; file I/O); MediaBox-origin handling",
+        not_decided="that output page k is input page order[k] with the same content, resources and boxes (Page::from_parsed_with_content; file I/O) is covered only by the bounded stand-in pageops; a non-zero MediaBox origin and the CropBox are lost (known finding)",
     ),
     "C23": dict(
         verus=["rc4", "objkey"],
-        kani=[K("c05_perm_new_and_flags", "encryption/permissions.rs", "Permissions::new/from_flags/flags/all")],
+        kani=[K("c05_perm_new_and_flags", "encryption/permissions.rs", "Permissions::new/from_flags/flags/all")] +
+             [K(f"c23_pad_password_{n}", "encryption/standard_security.rs", "StandardSecurityHandler::pad_password") for n in (0, 1, 31, 32, 33)],
         not_decided="AES-CBC/PKCS#7 (aes, cbc crates), MD5/SHA (md5, sha2 crates), Algorithms 2-10 glue pending",
     ),
     "C26": dict(
